@@ -14,6 +14,7 @@ import (
 	"encoding/json"
 	"errors"
 	"fmt"
+	"github.com/zeebo/errs"
 	"io"
 	"net/http"
 	"net/http/httptest"
@@ -70,6 +71,24 @@ type wrapCause struct {
 
 func (w *wrapCause) Error() string { return w.msg }
 func (w *wrapCause) Cause() error  { return w.in }
+
+// sliceErr is an error whose dynamic type cannot be compared with == (errs.Combine returns one like
+// it); Unwrap hands out its first element, which may be of the same type again.
+type sliceErr []error
+
+func (s sliceErr) Error() string { return fmt.Sprintf("group of %d", len(s)) }
+func (s sliceErr) Unwrap() error {
+	if len(s) == 0 {
+		return nil
+	}
+	return s[0]
+}
+
+// mapErr: the same with a map and the Cause method.
+type mapErr map[string]error
+
+func (m mapErr) Error() string { return "map error" }
+func (m mapErr) Cause() error  { return m["cause"] }
 
 // script is what the handler does; the handler records what actually happened.
 type script struct {
@@ -677,6 +696,15 @@ func errorsUnderTest() map[string]error {
 		"coded-nil-cause":     drpcerr.WithCode(&wrapCause{"no cause", nil}, 9),
 		"cause-of-nil-unwrap": &wrapCause{"outer", &wrap{"no inner", nil}},
 		"cause-then-code-str": &wrapCause{"outer", codeStr{"inner", "not_found"}},
+		// error values of types that == cannot compare, nested in their own kind
+		"combine-flat":            errs.Combine(base, errors.New("second")),
+		"combine-nested":          errs.Combine(errs.Combine(base, errors.New("rollback")), errors.New("close")),
+		"combine-nested-coded":    errs.Combine(errs.Combine(drpcerr.WithCode(base, 5), errors.New("rollback")), errors.New("close")),
+		"slice-in-slice":          sliceErr{sliceErr{sliceErr{}}},
+		"slice-in-slice-code-str": sliceErr{sliceErr{codeStr{"inner", "not_found"}}},
+		"map-in-map":              mapErr{"cause": mapErr{"cause": mapErr{}}},
+		"map-in-slice-coded":      sliceErr{mapErr{"cause": drpcerr.WithCode(base, 3)}},
+		"wrapped-slice-in-slice":  fmt.Errorf("ctx: %w", sliceErr{sliceErr{base}}),
 	}
 	for code := range twirpTable {
 		out["twirp-"+code] = codeStr{"msg for " + code, code}
